@@ -452,6 +452,19 @@ fn statement_s<'tcx>(tcx: TyCtxt<'tcx>, owner: DefId, body: &Body<'tcx>, s: &Sta
     }
 }
 
+fn blocks_s<'tcx>(tcx: TyCtxt<'tcx>, did: DefId, body: &Body<'tcx>) -> String {
+    let mut blocks = Vec::new();
+    for (_i, data) in body.basic_blocks.iter_enumerated() {
+        let stmts: Vec<String> = data.statements.iter().filter_map(|s| statement_s(tcx, did, body, s)).collect();
+        let term = match &data.terminator {
+            Some(t) => terminator_s(tcx, did, body, t),
+            None => "null".to_string(),
+        };
+        blocks.push(Obj::new().raw("stmts", arr(stmts)).raw("term", term).b("cleanup", data.is_cleanup).end());
+    }
+    arr(blocks)
+}
+
 fn body_s<'tcx>(tcx: TyCtxt<'tcx>, did: DefId, kind: &str) -> String {
     let body = tcx.optimized_mir(did);
     let (file, line, exp) = span_obj(tcx, body.span);
@@ -489,6 +502,12 @@ fn body_s<'tcx>(tcx: TyCtxt<'tcx>, did: DefId, kind: &str) -> String {
         .raw("locals", arr(locals))
         .raw("dbg", arr(dbg))
         .raw("blocks", arr(blocks));
+    // promoted constants (e.g. `&JmpWhen::False` in a comparison): their tiny bodies, so that rules can evaluate them
+    let mut proms = Vec::new();
+    for pb in tcx.promoted_mir(did).iter() {
+        proms.push(Obj::new().raw("blocks", blocks_s(tcx, did, pb)).end());
+    }
+    o = o.raw("promoted", arr(proms));
     // signature
     let fty = tcx.type_of(did).instantiate_identity();
     o = o.s("fn_ty", &ty_s(fty));
